@@ -36,5 +36,5 @@ Qed.
 Lemma c03_facts_hold : forallb snd gen_c03_facts = true.
 Proof. vm_compute. reflexivity. Qed.
 
-Lemma c03_facts_count : (23 <= List.length gen_c03_facts)%nat.
+Lemma c03_facts_count : (25 <= List.length gen_c03_facts)%nat.
 Proof. vm_compute. lia. Qed.
